@@ -31,15 +31,43 @@ ASSUMPTIONS = ["digests use public attributes and printed text only",
                "line-level scheduler (thorough tier)"]
 
 
+def _leaf_values(a):
+    """Stored values of the function objects hanging in the schema's numeric expressions."""
+    from pddl_plus_parser.models import NumericalExpressionTree, PDDLFunction, Precondition
+    out = []
+
+    def tree(t):
+        for node in t:
+            if node.is_leaf and isinstance(node.value, PDDLFunction):
+                out.append((node.value.name, repr(node.value.value)))
+
+    def cond(c):
+        for o in c.operands:
+            if isinstance(o, NumericalExpressionTree):
+                tree(o)
+            elif isinstance(o, Precondition):
+                cond(o)
+    cond(a.preconditions.root)
+    for t in a.numeric_effects:
+        tree(t)
+    for ce in list(a.conditional_effects) + [c for u in a.universal_effects for c in u.conditional_effects]:
+        cond(ce.antecedents.root)
+        for t in ce.numeric_effects:
+            tree(t)
+    return sorted(out)
+
+
 def digest_action(a):
     ok, xa = lib_call(extract.x_action, a)
     sig = [[k, v.name] for k, v in a.signature.items()]
-    return json.dumps([sig, xa if ok else repr(xa)], sort_keys=True, default=str)
+    okv, vals = lib_call(_leaf_values, a)
+    return json.dumps([sig, xa if ok else repr(xa), vals if okv else repr(vals)], sort_keys=True, default=str)
 
 
 def digest_domain(d):
     ok, v = lib_call(extract.x_vocab, d)
-    parts = [json.dumps(v if ok else repr(v), sort_keys=True, default=str)]
+    parts = [json.dumps(v if ok else repr(v), sort_keys=True, default=str),
+             json.dumps(sorted((n, repr(f.value)) for n, f in d.functions.items()))]
     for name in sorted(d.actions):
         parts.append(name + ":" + digest_action(d.actions[name]))
     return "\n".join(parts)
